@@ -197,11 +197,15 @@ def run(ctx):
     ctx.log('TLC evaluated %d cases: P-rejected %d, I-rejected %d' % (len(outs), len(prej), len(irej)))
     known = load_known('C28')
     iset = set(irej)
+    hist = {}
     for i in prej:
         c = outs[i]
-        if report(ctx, known, 'not what RangeHdr.tla allows: ' + show(c), {'class': classify(c, i not in iset), 'case': c, 'line': lines[i]}):
-            if len(ctx.violations) >= 5:
-                break
+        cls = classify(c, i not in iset)
+        key = '%s/%s/I-%s' % (cls['feature'], cls['outcome'], cls['i_layer'])
+        hist[key] = hist.get(key, 0) + 1
+        if len(ctx.violations) < 5:
+            report(ctx, known, 'not what RangeHdr.tla allows: ' + show(c), {'class': cls, 'case': c, 'line': lines[i]})
+    ctx.cov['p_rejected_by_class'] = hist
     pset = set(prej)
     for i in irej:
         if i not in pset and len(ctx.drift) < 5:
